@@ -21,17 +21,18 @@ def run_family(ctx, family, clauses, each=False):
     if g.rc != 0 or g.errors:
         raise InfraError("Lazy_Gen failed: %s" % g.tail[-10:])
     scen = []
-    for i, P in enumerate(pops):
+    pops.sort(key=lambda c: json.dumps(c, sort_keys=True))
+    for i, case in enumerate(pops):
+        P = case["pop"]
         orders = ("asc",) if ctx.quick else ("asc", "desc")
         if each:
             orders = tuple("each:%d" % x["id"] for x in P) + (() if ctx.quick else orders)
         for order in orders:
-            variant = (i + ctx.seed) % 6
-            scen.append((P, order, variant))
+            scen.append((P, order, (case["lay"], case["str"])))
     scripts, meta = [], {}
     for k, (P, order, variant) in enumerate(scen):
         f = os.path.join(wd, "p%d.p21" % k)
-        open(f, "w").write(lazy.file_text(P, variant))
+        open(f, "w", newline="").write(lazy.file_text(P, *variant))
         L = lazy.script(f, P, order)
         scripts.append((str(k), L))
         meta[str(k)] = (P, order, variant, L, f)
@@ -88,10 +89,10 @@ def run_family(ctx, family, clauses, each=False):
         if rep["dev"]:
             key = "dev:" + rep["dev"]
         else:
-            key = "%s|%s" % (what, json.dumps(P, separators=(",", ":")))
-        ctx.violation(key, "%s on population %s: %s" % (what, json.dumps(P, separators=(",", ":"))[:200], json.dumps(ev)[:260]),
-                      {"population": P, "file": lazy.file_text(P, variant), "order": order, "event": ev})
+            key = "%s|%s|%s" % (what, json.dumps(P, separators=(",", ":")), variant[0])
+        ctx.violation(key, "%s [layout %s] on population %s: %s" % (what, variant[0], json.dumps(P, separators=(",", ":"))[:200], json.dumps(ev)[:260]),
+                      {"population": P, "file": lazy.file_text(P, *variant), "layout": variant[0], "string_form": variant[1], "order": order, "event": ev})
     shutil.rmtree(wd, ignore_errors=True)
     sample = [json.loads(x) for x in lines[:4]]
-    return dict(loads_judged_in_full=clean, loads_under_known_reentrancy=tainted, populations=len(pops), sessions=len(scen), events=len(lines), reports=nrep, samples=sample,
+    return dict(layouts=sorted({v[0] for _, _, v in scen}), loads_judged_in_full=clean, loads_under_known_reentrancy=tainted, populations=len(pops), sessions=len(scen), events=len(lines), reports=nrep, samples=sample,
                 gen_states=g.distinct, gen_transitions=g.generated)
